@@ -8,9 +8,10 @@ defaults, NPD header line order, legacy rows/columns, comma vs space separated #
 without noise data.  Every spelling is loaded by vnadata_fload and must give the ground truth (to
 rounding), hence all spellings agree.
 
-Coq: Files/TouchstoneTok.v (byte-level tokenizer, theorem tok_decoration), Files/NpdScan.v
-(npd_header_order), Properties_C08.v; tied through harness/datafiles_tok.c (token streams of the
-generated files, C vs extracted model).
+Coq: Files/NpdScan.v (header-line state machine of the NPD loader), theorem npd_header_order_partial in
+Properties_C08.v, tied to the loader on the generated NPD spellings (checks/c08_ties.py).  The byte-level
+Touchstone tokenizer model and tok_decoration planned in DESIGN.md were not built: every other clause of
+the property rests on the generator + loader comparison (support, not proof).
 """
 import math
 
@@ -168,18 +169,15 @@ def run(ctx):
     ctx.level = "proof"
     ctx.trusted_base = [
         "Coq 8.16.1 kernel; no axioms (Print Assumptions: Closed under the global context)",
-        "hand-written byte-level model coq/Files/TouchstoneTok.v of next_char/next_token and coq/Files/NpdScan.v of scan_line, "
-        "tied on every run to the compiled functions through harness/datafiles_tok.c (which #includes vnadata_load_touchstone.c) "
-        "and harness/datafiles_npdscan.c on generated and mutated files; extraction with ExtrOcamlBasic only",
-        "strtod / strtol classification of a word as a number is an uninterpreted parameter of the tokenizer model",
+        "hand-written model coq/Files/NpdScan.v of the NPD header-line state machine (_vnadata_load_npd), tied on every run to "
+        "vnadata_fload on the generated NPD spellings; the #:z0 line and the Touchstone parser are not modelled",
         "the file generator lib/datafiles.py (format documents -> text) and the comparison with ground truth",
         "gcc, ASan/UBSan/LSan",
     ]
     ctx.assumptions = ["values compared to 1e-11 relative to the matrix (cexp/pow/strtod rounding is not modelled)"]
     ctx.rule = ("one evaluation = one spelling of one data set loaded by vnadata_fload and compared with the ground truth; "
                 "distinct non-trivial = (data set, spelling) pairs that loaded and matched")
-    ok, res = ctx.coq_obligations(["Files/TouchstoneTok.v", "Files/TouchstoneTokProofs.v", "Files/NpdScan.v", "Files/NpdScanProofs.v",
-                                   "Properties_C08.v"])
+    ok, res = ctx.coq_obligations(["Files/NpdScan.v", "Files/NpdScanProofs.v", "Properties_C08.v"])
     broken = []
     if not ok:
         broken.append("Coq development of C08 does not build: " + getattr(ctx, "_last_coq_log", "")[-400:])
@@ -263,7 +261,7 @@ def run(ctx):
     ctx.extra["spellings"] = len(info)
     ctx.extra["violation_classes"] = dict((str(dict(k)), v) for k, v in classes.items())
     ctx.obligation("tie:spellings_load_to_truth", not classes and not faults, "%d violation classes" % len(classes))
-    c08_ties.run(ctx, files, broken)
+    c08_ties.run(ctx, files, broken, info, results)
     for b in broken:
         ctx.unproved("C08", b, "%d spellings of %d data sets" % (len(info), nsets))
 
